@@ -282,6 +282,25 @@ func (g *gen) call(flavor string, maxLeaves int) Event {
 		f = g.pick([]string{"sat", "sat", "sat", "invalid", "lists", "extract", "extract"})
 	}
 	switch f {
+	case "case":
+		// case-mutated listed ids in expressions and allowed lists (C09)
+		n := 1 + g.rng.Intn(3)
+		e := g.caseMutate(g.expr(n, pool, false))
+		switch g.rng.Intn(3) {
+		case 0:
+			return eventOf(obsExtract(e), e, nil)
+		case 1:
+			l := []string{e}
+			return eventOf(obsValidate(l), "", l)
+		}
+		a := g.allowedList(pool, 1+g.rng.Intn(3))
+		for i := range a {
+			a[i] = g.caseMutate(a[i])
+		}
+		return eventOf(obsSatisfies(e, a), e, a)
+	case "spell":
+		// one id in two equivalent spellings against the same related entry (C08); both calls are recorded
+		return g.spellCall(pool)
 	case "single":
 		// one term against one allowed entry, both drawn from the same few families
 		t1, t2 := g.term(pool, true), g.term(pool, true)
@@ -328,6 +347,64 @@ func (g *gen) call(flavor string, maxLeaves int) Event {
 	default: // extract
 		return eventOf(obsExtract(e), e, nil)
 	}
+}
+
+// caseMutate changes the letter case of identifiers only (operators, the WITH keyword, Ref prefixes
+// and the -only / -or-later suffixes added to other ids stay as they are).
+func (g *gen) caseMutate(s string) string {
+	words := strings.Split(s, " ")
+	for i, w := range words {
+		core := strings.Trim(w, "()+")
+		if core == "" || core == "AND" || core == "OR" || core == "WITH" || strings.Contains(core, "Ref-") {
+			continue
+		}
+		if !inListFold(g.t.Active, core) && !inListFold(g.t.Deprecated, core) && !inListFold(g.t.Exceptions, core) {
+			continue // carries an added suffix: outside C09's claim
+		}
+		var m string
+		switch g.rng.Intn(3) {
+		case 0:
+			m = strings.ToLower(core)
+		case 1:
+			m = strings.ToUpper(core)
+		default:
+			m = g.caseVariant(core)
+		}
+		words[i] = strings.Replace(w, core, m, 1)
+	}
+	return strings.Join(words, " ")
+}
+
+func inListFold(l []string, s string) bool {
+	for _, x := range l {
+		if strings.EqualFold(x, s) {
+			return true
+		}
+	}
+	return false
+}
+
+// spellCall: Satisfies with a term written X / X-only / X+ / X-or-later, on either side.
+func (g *gen) spellCall(pool []string) Event {
+	var ids []string
+	for _, id := range pool {
+		if inList(g.t.Active, id) && !strings.HasSuffix(id, "-only") && !strings.HasSuffix(id, "-or-later") {
+			ids = append(ids, id)
+		}
+	}
+	if len(ids) == 0 {
+		ids = []string{g.t.Active[0]}
+	}
+	x := g.pick(ids)
+	s := x + g.pick([]string{"", "-only", "+", "-or-later"})
+	o := g.term(pool, false)
+	exprs := []string{s, "(" + s + ")", o + " OR " + s, "(" + s + " AND " + o + ")"}
+	e := g.pick(exprs)
+	if g.rng.Intn(2) == 0 {
+		return eventOf(obsSatisfies(e, []string{o, g.pick(g.t.Active)}), e, []string{o, g.pick(g.t.Active)})
+	}
+	a := []string{s}
+	return eventOf(obsSatisfies(o, a), o, a)
 }
 
 func cmdDrive(args []string) int {
